@@ -168,5 +168,264 @@ def main(argv):
     return 1 if r.get("reproduced") else 0
 
 
+
+
+def replay_C10(w, clause):
+    from kio.serial import entity_reader, entity_writer
+    from kio.serial.errors import SerialError
+
+    from . import shapes
+
+    cls = shapes.class_by_id(w["class"])
+    if w["kind"] == "arbitrary":
+        data = bytes(w["bytes"])
+    else:
+        inst = shapes.from_jsonable(w["instance"])
+        data = bytearray(_encode(cls, inst))
+        data[w["offset"]] = w["value"]
+        data = bytes(data)
+    buf = io.BytesIO(data)
+    try:
+        out = entity_reader(cls)(buf)
+    except (SerialError, ValueError, OverflowError) as e:
+        return {"reproduced": False, "detail": f"allowed outcome {type(e).__name__}"}
+    except Exception as e:
+        return {"reproduced": True, "sig": {"kind": "internal_error", **_exc_sig(e)},
+                "detail": f"{w['class']} on bytes {data[:48].hex()} raised {type(e).__name__}: {e}"}
+    if clause == "array_item_consumes_at_least_one_byte":
+        if buf.tell() == 0:
+            return {"reproduced": True, "sig": {"kind": "zero_width_array_item"}, "detail": f"{w['class']} decodes from zero bytes and is used as an array item"}
+        return {"reproduced": False, "detail": "consumed >= 1 byte"}
+    try:
+        entity_writer(cls)(io.BytesIO(), out)
+    except Exception as e:
+        return {"reproduced": True, "sig": {"kind": "returned_entity_not_encodable", **_exc_sig(e)},
+                "detail": f"{w['class']} decoded {data[:48].hex()} to {out!r} which the writer rejects with {type(e).__name__}: {e}"[:500]}
+    return {"reproduced": False, "detail": "decoded and re-encoded"}
+
+
+def _has_raw(x):
+    import dataclasses as _dc
+
+    if type(x).__name__ == "RawMillis":
+        return True
+    if _dc.is_dataclass(x) and not isinstance(x, type):
+        return any(_has_raw(getattr(x, f.name)) for f in _dc.fields(x))
+    if isinstance(x, tuple):
+        return any(_has_raw(v) for v in x)
+    return False
+
+
+def replay_C03(w, clause):
+    from kio.serial import entity_reader
+
+    from . import shapes
+
+    if not w.get("bytes") and w.get("bytes") != "":
+        return {"reproduced": None, "error": "witness too large to replay"}
+    exp = _load_instance(w)
+    cls = type(exp)
+    data = bytes.fromhex(w["bytes"])
+    ntail = len(w.get("tail", []))
+    buf = io.BytesIO(data)
+    try:
+        out = entity_reader(cls)(buf)
+    except Exception as e:
+        sig = {"kind": "reader_raises", **_exc_sig(e)}
+        if _has_raw(exp):
+            sig["cause"] = "time_value_beyond_python_range"
+        return {"reproduced": True, "sig": sig,
+                "detail": f"{shapes.class_id(cls)}: conforming encoding {data[:64].hex()} raised {type(e).__name__}: {e}"}
+    if out != exp:
+        p, kt, ra, rb = _first_diff(exp, out)
+        return {"reproduced": True, "sig": {"kind": "wrong_value", "kafka_type": kt},
+                "detail": f"{shapes.class_id(cls)} {p}: on the wire {ra}, decoded {rb} (bytes {data[:64].hex()})"}
+    if buf.tell() != len(data) - ntail:
+        return {"reproduced": True, "sig": {"kind": "consumption"}, "detail": f"consumed {buf.tell()} of {len(data) - ntail} bytes"}
+    return {"reproduced": False, "detail": "decoded to the wire values, exact consumption"}
+
+
+def replay_C05(w, clause):
+    from kio.serial import entity_reader, entity_writer
+    from kio.serial.errors import DecodeError, OutOfBoundValue
+
+    from . import shapes
+
+    if not w.get("bytes") and w.get("bytes") != "":
+        return {"reproduced": None, "error": "witness too large to replay"}
+    cls = shapes.class_by_id(w["class"])
+    data = bytes.fromhex(w["bytes"])
+    try:
+        out = entity_reader(cls)(io.BytesIO(data))
+    except (DecodeError, OutOfBoundValue, ValueError, OverflowError) as e:
+        return {"reproduced": False, "detail": f"decoder does not accept this input ({type(e).__name__})"}
+    except Exception as e:
+        return {"reproduced": True, "sig": {"kind": "reader_internal_error", **_exc_sig(e)}, "detail": f"{type(e).__name__}: {e}"}
+    buf = io.BytesIO()
+    try:
+        entity_writer(cls)(buf, out)
+    except Exception as e:
+        return {"reproduced": True, "sig": {"kind": "decoded_value_rejected_by_encoder", **_exc_sig(e)},
+                "detail": f"{w['class']}: decode({data[:64].hex()}) = {out!r} is rejected by the encoder: {type(e).__name__}: {e}"[:500]}
+    re = buf.getvalue()
+    if re != data:
+        k = next((i for i in range(min(len(data), len(re))) if data[i] != re[i]), min(len(data), len(re)))
+        return {"reproduced": True, "sig": {"kind": "reencoding_differs"},
+                "detail": f"{w['class']}: byte {k}: input {data[max(0,k-4):k+8].hex()} re-encoded {re[max(0,k-4):k+8].hex()}"}
+    out2 = entity_reader(cls)(io.BytesIO(re))
+    if out2 != out:
+        return {"reproduced": True, "sig": {"kind": "not_idempotent"}, "detail": "decode(encode(decode(b))) != decode(b)"}
+    return {"reproduced": False, "detail": "re-encoding reproduces the bytes"}
+
+
+def replay_C07(w, clause):
+    from kio.serial import entity_reader, entity_writer
+
+    from . import shapes
+
+    cls = shapes.class_by_id(w["class"])
+    hcls = cls.__header_schema__
+    msgs = [(shapes.from_jsonable(h), shapes.from_jsonable(x)) for h, x in w["msgs"]]
+    lead, trail = bytes.fromhex(w["lead"]), bytes.fromhex(w["trail"])
+
+    class WriteOnly:
+        def __init__(self, ret):
+            self.data = bytearray()
+            self.ret = ret
+            self.used = []
+
+        def write(self, b):
+            self.data += bytes(b)
+            return len(b) if self.ret else None
+
+        def __getattr__(self, name):
+            self.__dict__.setdefault("used", []).append(name)
+            raise AttributeError(name)
+
+    class ReadOnly:
+        def __init__(self, data):
+            self._b = io.BytesIO(data)
+            self.used = []
+
+        def read(self, n=-1):
+            return self._b.read(n)
+
+        def __getattr__(self, name):
+            self.__dict__.setdefault("used", []).append(name)
+            raise AttributeError(name)
+
+    outs = []
+    for ret in (True, False):
+        s = WriteOnly(ret)
+        s.write(lead)
+        try:
+            for h, x in msgs:
+                entity_writer(hcls)(s, h)
+                entity_writer(cls)(s, x)
+        except Exception as e:
+            return {"reproduced": True, "sig": {"kind": "writer_raises_on_write_only_sink", **_exc_sig(e)},
+                    "detail": f"{w['class']}: {type(e).__name__}: {e}; attributes touched: {s.used}"}
+        s.write(trail)
+        if s.used:
+            return {"reproduced": True, "sig": {"kind": "sink_protocol", "attrs": sorted(set(s.used))}, "detail": f"encoder touched {s.used} on the sink"}
+        outs.append(bytes(s.data))
+    if outs[0] != outs[1]:
+        return {"reproduced": True, "sig": {"kind": "bytes_depend_on_sink_kind"}, "detail": "bytes differ between a sink whose write returns a count and one returning None"}
+    r = ReadOnly(outs[0])
+    r.read(len(lead))
+    try:
+        for h, x in msgs:
+            h2 = entity_reader(hcls)(r)
+            x2 = entity_reader(cls)(r)
+            if h2 != h or x2 != x:
+                return {"reproduced": True, "sig": {"kind": "stream_decode_mismatch"}, "detail": f"{w['class']}: message decoded from the stream differs from what was written"}
+    except Exception as e:
+        return {"reproduced": True, "sig": {"kind": "reader_raises_on_read_only_source", **_exc_sig(e)},
+                "detail": f"{w['class']}: {type(e).__name__}: {e}; attributes touched: {r.used}"}
+    if r.used:
+        return {"reproduced": True, "sig": {"kind": "source_protocol", "attrs": sorted(set(r.used))}, "detail": f"decoder touched {r.used} on the source"}
+    if r.read() != trail:
+        return {"reproduced": True, "sig": {"kind": "trail"}, "detail": "bytes after the last message are not exactly the trailing bytes"}
+    return {"reproduced": False, "detail": "stream round trip ok on write-only/read-only objects"}
+
+
+def replay_C19(w, clause):
+    """two-call history on the real cached reader/writer with real streams"""
+    from kio.serial import entity_reader, entity_writer
+
+    from . import kref, shapes
+    from .props import c19
+
+    cls = shapes.class_by_id(w["class"])
+    if "finite" in w:
+        others = shapes.signature_representatives(shapes.all_entity_classes())[:25]
+        fin = c19.finite_checks(cls, {}, others)
+        ok = fin.get(w["finite"], True)
+        return {"reproduced": not ok, "sig": {"kind": "finite", "which": w["finite"]}, "detail": f"{w['class']}: {w['finite']} = {ok}"}
+    a, b = shapes.from_jsonable(w["a"]), shapes.from_jsonable(w["b"])
+    wr, rd = entity_writer(cls), entity_reader(cls)
+    frame = c19.Frame(wr, rd)
+    k = w.get("fault_k")
+
+    class FaultySink:
+        def __init__(self, k):
+            self.n = 0
+            self.k = k
+            self.buf = bytearray()
+
+        def write(self, data):
+            frame.check("during call 1 (write)")
+            if self.k is not None and self.n == self.k:
+                self.n += 1
+                raise OSError("injected")
+            self.n += 1
+            self.buf += bytes(data)
+
+    class FaultySource:
+        def __init__(self, data, k, limit=None):
+            self.b = io.BytesIO(data if limit is None else data[:limit])
+            self.n = 0
+            self.k = k
+
+        def read(self, n=-1):
+            frame.check("during call 1 (read)")
+            if self.k is not None and self.n == self.k:
+                self.n += 1
+                raise OSError("injected")
+            self.n += 1
+            return self.b.read(n)
+
+    kind = w["call1"]
+    try:
+        if kind.startswith("write"):
+            wr(FaultySink(k if kind == "write_fault" else None), a)
+        elif kind.startswith("read"):
+            data = _encode(cls, a)
+            lim = max(0, len(data) // 2) if kind == "read_truncated" else None
+            rd(FaultySource(data, k if kind == "read_fault" else None, lim))
+    except Exception:
+        pass
+    frame.check("after call 1")
+    buf = io.BytesIO()
+    try:
+        wr(buf, b)
+    except Exception as e:
+        return {"reproduced": True, "sig": {"kind": "call2_writer_raises", **_exc_sig(e)}, "detail": f"after {kind}: {type(e).__name__}: {e}"}
+    got = buf.getvalue()
+    ref = bytes(kref.encode(b))
+    if got != ref:
+        return {"reproduced": True, "sig": {"kind": "call2_bytes_differ", "after": kind}, "detail": f"{w['class']}: after call 1 ({kind}) the cached writer encodes b differently from the reference"}
+    try:
+        out = rd(io.BytesIO(got))
+    except Exception as e:
+        return {"reproduced": True, "sig": {"kind": "call2_reader_raises", **_exc_sig(e)}, "detail": f"after {kind}: {type(e).__name__}: {e}"}
+    if out != b:
+        return {"reproduced": True, "sig": {"kind": "call2_value_differs", "after": kind}, "detail": f"{w['class']}: after call 1 ({kind}) the cached reader decodes b's bytes to a different value"}
+    frame.check("after call 2")
+    if frame.broken:
+        return {"reproduced": True, "sig": {"kind": "shared_state_written", "when": frame.broken}, "detail": f"{w['class']}: state reachable from the cached reader/writer changed {frame.broken}"}
+    return {"reproduced": False, "detail": "history has no effect on the real code"}
+
+
 if __name__ == "__main__":
     sys.exit(main(sys.argv[1:]))
